@@ -203,6 +203,34 @@ pub fn names_of(ast: &MapAst) -> Names {
             }
         }
     }
+    // names from the other side of the mapping: a query for an ORIGINAL class or method name
+    // selects nothing (unless the item is kept), and an original line number is a query
+    // line like any other
+    let mut origs: Vec<&str> = vec![];
+    let mut orig_methods: Vec<&str> = vec![];
+    for it in &ast.items {
+        match it {
+            Item::Class { orig, .. } => origs.push(orig.as_str()),
+            Item::Method(m) => {
+                orig_methods.push(m.orig.as_str());
+                if let Some(c) = &m.orig_class {
+                    origs.push(c.as_str());
+                }
+                for v in [m.ostart, m.oend].into_iter().flatten() {
+                    if lines.len() < 4000 {
+                        lines.push(v);
+                    }
+                }
+            }
+            _ => {}
+        }
+    }
+    for c in origs.into_iter().take(6) {
+        push(&mut n.classes, c);
+    }
+    for m in orig_methods.into_iter().take(6) {
+        push(&mut n.methods, m);
+    }
     push(&mut n.classes, "unknown.Klass");
     push(&mut n.classes, "");
     push(&mut n.methods, "unknownMethod");
